@@ -8,7 +8,8 @@ is evaluated by vm_compute at K = complex binary64 (coq/Bosonic/Exec.v) on the v
 Coq within 1e-9 (relative to max(1,|x|,|y|)); weights are compared bit for bit.
 
 Public interface (for tools/props/c01.py, c05.py, c07.py):
-    COQ_TARGETS, COQ_DIRS, PROPERTIES_FILE, RULE_BOSONIC, TRUSTED_BOSONIC
+    COQ_TARGETS, COQ_DIRS, PROPERTIES_FILE, RULE_BOSONIC, TRUSTED_BOSONIC      (C01, C05, C07)
+    COQ_TARGETS_AGREE, COQ_DIRS_AGREE, PROPERTIES_FILE_AGREE                   (C01 only: needs the Gaussian model)
     correspondence_bosonic(ctx, predicates=("spectator",))
         reports via ctx.counterexample / ctx.disagreement / ctx.obligation.  On model != implementation the listed
         property predicates are evaluated on the IMPLEMENTATION at that input, in the given order
@@ -28,8 +29,15 @@ import numpy as np
 from vlib import coq
 
 COQ_DIRS = ["Bosonic"]
-COQ_TARGETS = ["Bosonic/Sum.vo", "Bosonic/Model.vo", "Bosonic/Index.vo", "Bosonic/Proofs.vo", "Bosonic/Physical.vo", "Bosonic/Agree.vo", "Bosonic/Exec.vo"]
+# core: independent of the Gaussian-simulator model (safe to audit from C01, C05 and C07)
+COQ_TARGETS = ["Bosonic/Sum.vo", "Bosonic/Model.vo", "Bosonic/Index.vo", "Bosonic/Proofs.vo", "Bosonic/Physical.vo", "Bosonic/Exec.vo"]
 PROPERTIES_FILE = "Properties/Bosonic.v"
+# C01 only: corollaries "Gaussian simulator = bosonic simulator" (per operation and for whole programs).  They import
+# Gen/GaussCirc.v, C01/GaussPhaseSpace.v and C07/GaussPhysical.v, so a change to gaussiancircuit.py that breaks C01's
+# theorems breaks these too — do not audit them from C05 / C07.
+COQ_TARGETS_AGREE = ["Bosonic/Agree.vo", "Bosonic/AgreeProg.vo"]
+PROPERTIES_FILE_AGREE = "Properties/BosonicAgree.v"
+COQ_DIRS_AGREE = ["Bosonic", "BosonicAgree"]     # "BosonicAgree" makes the grep gate scan Properties/BosonicAgree.v
 ALL_PREDICATES = ("spectator", "weights", "symmetric", "reference")
 RULE_BOSONIC = ("bosonic model correspondence: every method in {displace, squeeze, phase_shift, beamsplitter, loss, thermal_loss, init_thermal} at "
                 "every target position (ordered pairs for the beam splitter) of 1-4 mode registers, 1-3 weights, random complex means / covariances "
